@@ -14,9 +14,10 @@ of the current contents:
   second copy    `rebuild(root)`: every node re-created through the public
                  constructors from sym_items() / value_spec / flags
 
-A difference is reported only when the two independent fresh copies agree
-with each other (or only one of them could be made): a defect of the JSON
-round trip (C05) or of this module's `rebuild` must not become a C09 alarm.
+A live answer is stale when it differs from the primary copy and, if the
+second copy could be made, from that one too: a shortcoming of the JSON round
+trip (C05; `to_json` drops the value spec of a stand-alone typed Dict) must not
+become a C09 alarm.
 
 Only public API is used.
 """
@@ -30,20 +31,15 @@ MISSING = pg.MISSING_VALUE
 # name -> reader. Every reader is a pure query of the public API.
 FACTS = {
     'is_partial': lambda n: n.is_partial,
-    'sym_partial': lambda n: n.sym_partial,
     'sym_missing()': lambda n: n.sym_missing(),
     'sym_missing(flatten=False)': lambda n: n.sym_missing(flatten=False),
-    'missing_values()': lambda n: n.missing_values(),
     'sym_nondefault()': lambda n: n.sym_nondefault(),
     'non_default_values(flatten=False)': lambda n: n.non_default_values(flatten=False),
     'sym_puresymbolic': lambda n: n.sym_puresymbolic,
-    'is_pure_symbolic': lambda n: n.is_pure_symbolic,
     'is_deterministic': lambda n: n.is_deterministic,
     'is_abstract': lambda n: n.is_abstract,
-    'pg.is_partial': pg.is_partial,
-    'pg.is_abstract': pg.is_abstract,
 }
-# The facts named by the property; the other readers are alternate spellings.
+# The facts named by the property; the other readers are other spellings of them.
 CORE = ('is_partial', 'sym_missing()', 'sym_nondefault()', 'sym_puresymbolic',
         'is_deterministic', 'is_abstract')
 
@@ -108,11 +104,16 @@ def touch(forest, counters=None):
   return out
 
 
-def summary(facts_by_node):
-  """Hashable summary of the core facts of a forest (for 'did they change')."""
-  return tuple(sorted(
-      (repr(k), tuple(repr(f[name]) for name in CORE))
-      for k, f in facts_by_node.items()))
+def root_facts_changed(before, after):
+  """True when a core fact of some root differs between two `touch` results
+  (the facts of a root aggregate everything below it)."""
+  roots = {k for k in list(before) + list(after) if not k[1]}
+  for k in roots:
+    if k not in before or k not in after:
+      return True
+    if any(not facts_equal(before[k][name], after[k][name]) for name in CORE):
+      return True
+  return False
 
 
 def json_copy(root):
@@ -219,7 +220,10 @@ def check(forest, counters, touched=None):
         counters['derived_fact_comparisons'] += 1
         if facts_equal(mine[name], fresh[name]):
           continue
-        # Confirm with the other, independently made, fresh copy.
+        # Ask the other, independently made, fresh copy. A live answer that
+        # agrees with one fresh computation is not stale (pg.to_json drops the
+        # value spec of a stand-alone typed Dict/List, for instance).
+        shown = fresh[name]
         if copy1 is not None:
           other = second()
           try:
@@ -228,9 +232,10 @@ def check(forest, counters, touched=None):
             twin2 = None
           if isinstance(twin2, pg.Symbolic) and type(twin2) is type(n):
             f2 = read(twin2)[name]
-            if not facts_equal(f2, fresh[name]):
-              counters['derived_oracles_disagree'] += 1
+            if facts_equal(mine[name], f2):
+              counters['derived_json_copy_unfaithful'] += 1
               continue
+            shown = f2
         problems.append((ridx, list(keys), type(n).__name__, name,
-                         mine[name], fresh[name]))
+                         mine[name], shown))
   return problems
